@@ -375,6 +375,8 @@ def build(name="alloc", archetype_items=None):
             ("C02.fresh", "!old(self).resolves(id)"),
             ("C02.resolves", "final(self).resolves(id)"),
             ("C01.view", "final(self).view() == old(self).view().insert(id, location)"),
+            ("C01.view_pointwise", "forall|i: entity::Identifier| #![trigger final(self).resolves(i)] #![trigger old(self).resolves(i)] (final(self).resolves(i) == (old(self).resolves(i) || i == id)) && (old(self).resolves(i) ==> final(self).view()[i] == old(self).view()[i])"),
+            ("C01.view_new", "final(self).view()[id] == location"),
             ("C02.generation_bumped", "id.index < old(self).slots@.len() ==> id.generation == old(self).slots@[id.index as int].generation.wrapping_add(1)"),
             ("C02.new_slot", "id.index >= old(self).slots@.len() ==> id.index == old(self).slots@.len() && id.generation == 0"),
             ("frame.slots_len", "final(self).slots@.len() == (if id.index < old(self).slots@.len() { old(self).slots@.len() } else { old(self).slots@.len() + 1 })"),
@@ -482,6 +484,7 @@ def build(name="alloc", archetype_items=None):
            ensures=WF_ENS + [
                ("C02.dead", "!final(self).resolves(identifier)"),
                ("C01.view", "final(self).view() == old(self).view().remove(identifier)"),
+               ("C01.view_pointwise", "forall|i: entity::Identifier| #![trigger final(self).resolves(i)] #![trigger old(self).resolves(i)] (final(self).resolves(i) == (old(self).resolves(i) && i != identifier)) && (final(self).resolves(i) ==> final(self).view()[i] == old(self).view()[i])"),
                ("C13.free_appended", "final(self).free@ == old(self).free@.push(identifier.index)"),
                ("frame.slots_len", "final(self).slots@.len() == old(self).slots@.len()"),
                ("frame.generations", "forall|s: int| 0 <= s < old(self).slots@.len() ==> (#[trigger] final(self).slots@[s]).generation == old(self).slots@[s].generation"),
@@ -525,6 +528,8 @@ def build(name="alloc", archetype_items=None):
            requires=[("pre.wf", "old(self).wf()"), ("pre.safety_identifier_live", "old(self).resolves(identifier)")],
            ensures=WF_ENS + [
                ("C02.same_ids", "final(self).view() == old(self).view().insert(identifier, location)"),
+               ("C02.same_ids_pointwise", "forall|i: entity::Identifier| #![trigger final(self).resolves(i)] #![trigger old(self).resolves(i)] (final(self).resolves(i) == old(self).resolves(i)) && (old(self).resolves(i) && i != identifier ==> final(self).view()[i] == old(self).view()[i])"),
+               ("C02.moved", "final(self).view()[identifier] == location"),
                ("C13.count", "final(self).active_count() == old(self).active_count()"),
                ("frame.free", "final(self).free@ == old(self).free@"),
                ("frame.slots_len", "final(self).slots@.len() == old(self).slots@.len()"),
@@ -558,6 +563,8 @@ def build(name="alloc", archetype_items=None):
            requires=[("pre.wf", "old(self).wf()"), ("pre.safety_identifier_live", "old(self).resolves(identifier)")],
            ensures=WF_ENS + [
                ("C02.same_ids", "final(self).view() == old(self).view().insert(identifier, Location { identifier: old(self).view()[identifier].identifier, index })"),
+               ("C02.same_ids_pointwise", "forall|i: entity::Identifier| #![trigger final(self).resolves(i)] #![trigger old(self).resolves(i)] (final(self).resolves(i) == old(self).resolves(i)) && (old(self).resolves(i) && i != identifier ==> final(self).view()[i] == old(self).view()[i])"),
+               ("C02.moved", "final(self).view()[identifier] == (Location { identifier: old(self).view()[identifier].identifier, index })"),
                ("C13.count", "final(self).active_count() == old(self).active_count()"),
                ("frame.free", "final(self).free@ == old(self).free@"),
                ("frame.slots_len", "final(self).slots@.len() == old(self).slots@.len()"),
